@@ -24,10 +24,10 @@ def cache_configs(g, split):
 
 CONFIGS = {
     'C09': {
-        'quick': [dict(mode='work', workers=2, items=2, steps=26)],
-        'thorough': [dict(mode='work', workers=2, items=2, steps=26),
-                     dict(mode='work', workers=3, items=2, steps=34),
-                     dict(mode='work', workers=2, items=3, steps=36)],
+        'quick': [dict(mode='work', workers=2, items=2, steps=29), dict(mode='work', workers=1, items=2, steps=22)],
+        'thorough': [dict(mode='work', workers=2, items=2, steps=29), dict(mode='work', workers=1, items=2, steps=22),
+                     dict(mode='work', workers=3, items=2, steps=37),
+                     dict(mode='work', workers=2, items=3, steps=40)],
     },
     'C10': {
         'quick': cache_configs(2, False),
@@ -37,8 +37,8 @@ CONFIGS = {
 
 BOUNDS = {
     'C09': {
-        'quick': '2 workers (Do(2, f)) x 2 items, every item graph (f(i) adds j iff G[i][j], G symbolic) and every set of initial adds; all schedules, rand.Intn picks and Signal wake-up choices up to 26 transitions (the unwinding assertion shows every schedule has finished by then)',
-        'thorough': 'additionally 3 workers x 2 items (34 transitions) and 2 workers x 3 items (36 transitions)',
+        'quick': '2 workers (Do(2, f)) x 2 items and 1 worker x 2 items (22 transitions), every item graph (f(i) adds j iff G[i][j], G symbolic) and every set of initial adds; all schedules, rand.Intn picks and Signal wake-up choices up to 29 transitions (the unwinding assertion shows every schedule has finished by then)',
+        'thorough': 'additionally 3 workers x 2 items (37 transitions) and 2 workers x 3 items (40 transitions)',
     },
     'C10': {
         'quick': '2 goroutines, each performing one call chosen by the solver from {Do(k0), Do(k1), Get(k0), Get(k1)}; all schedules up to 24 transitions',
